@@ -144,9 +144,48 @@ class PoolGen:
         return History(self.ops, tags=self.tags)
 
 
+def scripted_partial_commits_timed(r):
+    """timed block generation (the batch timer, not the ready counter, asks for batches): one account's transactions fill several
+    batches, each of which is committed by a notification that names only part of it (the last transaction, or the first), while
+    another account's transactions wait; then the timer fires again: the batch for the waiting account keeps to the configured size"""
+    g = PoolGen(r, timed=True)
+    while g.batch not in (2, 3):
+        g = PoolGen(r, timed=True)
+    bs = g.batch
+    a, b = r.sample([x for x in ACCTS if x != FOREIGN], 2)
+    nb = r.choice([2, 3, 3, 4])                 # batches of account a
+    left = nb * (bs - 1)                        # transactions of those batches no notification will have named
+    g.group += 1
+    txs = []
+    for acct, cnt in ((a, nb * bs), (b, r.choice([left, left, left, left + 1, max(1, left - 1), bs + 1]))):
+        for _ in range(cnt):
+            n = g.next_nonce[acct]
+            g.next_nonce[acct] = n + 1
+            h = g.newhash()
+            g.given.append((acct, n, h))
+            txs.append(f"{acct}:{n}:{h}:{len(txs) + 1}")
+    g.ops.append(f"proc leader=1 local=1 g={g.group} " + " ".join(txs))
+    g.obs()
+    part = r.choice(["last", "last", "first"])
+    a_hashes = [h for (acct, n, h) in g.given if acct == a]        # in nonce order = the order they are batched in
+    for i in range(nb):
+        g.ops.append("gen")
+        # the notification names one transaction of the batch just built (and none of any older batch)
+        g.ops.append("commit " + (a_hashes[(i + 1) * bs - 1] if part == "last" else a_hashes[i * bs]))
+        g.obs()
+    for _ in range(3):
+        g.ops.append("gen")
+        g.obs()
+    g.tags.add("scripted-partial-commits-timed:" + part)
+    return g.history(r.randint(0, 6))
+
+
 def gen(rng, n, tier, steps=(8, 40)):
     import random as _r
-    return [PoolGen(_r.Random(rng.getrandbits(64))).history(rng.randint(*steps)) for _ in range(n)]
+    hs = [PoolGen(_r.Random(rng.getrandbits(64))).history(rng.randint(*steps)) for _ in range(n)]
+    for _ in range(max(3, n // 40)):
+        hs.append(scripted_partial_commits_timed(_r.Random(rng.getrandbits(64))))
+    return hs
 
 
 # --------------------------------------------------------------------------------------------- monitors
